@@ -287,7 +287,7 @@ func (r *c11Runner) compact(kind string) {
 	}
 }
 
-func (r *c11Runner) execute(dry bool, via string) (execResp, int, string) {
+func (r *c11Runner) execute(dry bool, via, reqBody string) (execResp, int, string) {
 	if !dry && via == "scheduler" {
 		// the scheduler's entry point (internal/scheduler calls exactly this)
 		resp, err := r.ret.ExecutePolicy(context.Background(), r.policyID)
@@ -299,7 +299,7 @@ func (r *c11Runner) execute(dry bool, via string) (execResp, int, string) {
 		_ = json.Unmarshal(b, &out)
 		return out, 200, string(b)
 	}
-	body, _ := json.Marshal(map[string]any{"dry_run": dry, "confirm": !dry})
+	body := []byte(reqBody)
 	code, b, _ := r.n.Do("POST", fmt.Sprintf("/api/v1/retention/%d/execute", r.policyID), map[string]string{"Content-Type": "application/json"}, body)
 	var out execResp
 	_ = json.Unmarshal(b, &out)
@@ -364,10 +364,22 @@ func (r *c11Runner) run(step int) {
 
 	// dry run
 	t0 = time.Now()
-	dry, dcode, draw := r.execute(true, "http")
+	dryBody, realBody := st.DryBody, st.RealBody
+	if dryBody == "" {
+		dryBody = `{"dry_run":true}`
+	}
+	if realBody == "" {
+		realBody = `{"confirm":true}`
+	}
+	if strings.Contains(dryBody, `"confirm":true`) {
+		r.counters["dry_runs_with_confirm_true"]++
+	} else {
+		r.counters["dry_runs_without_confirm"]++
+	}
+	dry, dcode, draw := r.execute(true, "http", dryBody)
 	r.timed("dry_run", t0)
 	if d := diffSnapshots(s0.all, snapshotTree(r.n.Root)); len(d) > 0 {
-		r.add("retention dry run deleted or modified files", base(map[string]any{"diff": d, "response": draw}))
+		r.add("retention dry run deleted or modified files", base(map[string]any{"diff": d, "response": draw, "request_body": dryBody}))
 	}
 	if dcode != 200 {
 		r.fail(fmt.Sprintf("dry run refused: HTTP %d %s", dcode, draw))
@@ -380,7 +392,7 @@ func (r *c11Runner) run(step int) {
 
 	// real run
 	t0 = time.Now()
-	real, code, raw := r.execute(false, st.Exec)
+	real, code, raw := r.execute(false, st.Exec, realBody)
 	r.timed("real_run", t0)
 	s2, err := captureC11(r.n.Root)
 	if err != nil {
@@ -662,7 +674,7 @@ func checkC11(c *vlib.Ctx) {
 		"files whose maximum is the last microsecond before the cutoff, exactly the cutoff, straddling it, or starting at it; in a third of the steps real hourly / hourly+daily compaction cycles " +
 		"(compacted hour files and day files). Policy: database x (no filter | cpu | cpu_total | cp | empty string | unknown), retention 1..365 d, buffer 0..7 d. " +
 		"The virtual clock fixes now so that the cutoff is mid-hour, has a nanosecond remainder, or sits exactly on / next to an hour or day boundary (one alignment per round of 25 cases). " +
-		"40% of the cases run a second step (more ingest and/or compaction, clock advanced by 1ns..3d). Every step = dry run, then real run via HTTP or via ExecutePolicy (scheduler entry point). " +
+		"40% of the cases run a second step (more ingest and/or compaction, clock advanced by 1ns..3d). Every step = dry run, then real run via HTTP or via ExecutePolicy (scheduler entry point, no flags); the HTTP bodies range over every accepted flag combination (dry_run alone, dry_run with confirm false/true in either key order; confirm alone, confirm with dry_run=false). " +
 		"Non-trivial = some but not all covered files are wholly older than the cutoff; distinct by the multiset of (pair, file kind, class relative to cutoff, covered).")
 	c.Assume("The policy's cutoff is now - (retention_days + buffer_days) x 24h in UTC, now being the (virtual) clock read by internal/api/retention.go; all time.Now calls of that file are redirected by the build-time rewrite.")
 	c.Assume("State before/after is read with the arrow-go Parquet reader (vpq); rows are identified by rid, files by path + sha256. Compaction effects happen before the 'before' snapshot and are not judged here (C09).")
